@@ -123,6 +123,12 @@ pub mod watchdog {
             g.1 = Instant::now();
         }
     }
+    /// Progress inside the current case (e.g. the next input of the same grammar): restarts the clock only.
+    pub fn touch() {
+        if let Some(m) = CUR.get() {
+            m.lock().unwrap().1 = Instant::now();
+        }
+    }
     pub fn clear() {
         if let Some(m) = CUR.get() {
             m.lock().unwrap().0.clear();
